@@ -608,13 +608,18 @@ class DAGRunConcurrentManager(DAGRunManagerLike):
             # The switch task is the only place where the error can be seen, so the run method must be notified.
             await self.__raise_exc(ex)
 
-        return await self._run_dag(
-            dag=self._get_reduced_dag(
-                self.dag.input_node,
-                (self._node_storage.get_switch_result(node_id)).node_id,
-                is_oneof=dag.is_oneof,
-            ),
-        )
+        try:
+            return await self._run_dag(
+                dag=self._get_reduced_dag(
+                    self.dag.input_node,
+                    (self._node_storage.get_switch_result(node_id)).node_id,
+                    is_oneof=dag.is_oneof,
+                ),
+            )
+        finally:
+            # The selected case may have been computed for another consumer already. In that case nothing
+            # is executed here, so the consumers of the switch have to be notified explicitly.
+            await self.__unlock_descendants(node_id)
 
     async def _run_node(
         self,
